@@ -257,7 +257,8 @@ func (d *TSDDecoder) EndTime() uint16 {
 
 // Next returns if has next slot data
 func (d *TSDDecoder) Next() bool {
-	if d.startTime+d.idx <= d.endTime {
+	// NOTE: compare as int, uint16 overflows if end time is 65535(always has next)
+	if int(d.startTime)+int(d.idx) <= int(d.endTime) {
 		d.idx++
 		return true
 	}
